@@ -100,19 +100,24 @@ struct EntryB {
     s2: Slot<Sub>,
 }
 
-fn wait_slot(s: &mut Slot<Sub>) -> Option<u64> {
+thread_local! {
+    /// how long `wait_for_data` may take before the harness gives up (and drops the future)
+    static WAIT_BUDGET: Cell<Duration> = const { Cell::new(Duration::from_secs(10)) };
+}
+
+/// Ok(value handed back) or Err(()) when the data did not arrive within the budget
+fn wait_slot(s: &mut Slot<Sub>) -> Result<Option<u64>, ()> {
     // bounded wait: poll with a no-op waker (the guard's drop completes the channel)
     let mut fut = std::pin::pin!(s.wait_for_data());
     let waker = futures::task::noop_waker();
     let mut cx = Context::from_waker(&waker);
-    let deadline = Instant::now() + Duration::from_secs(10);
+    let deadline = Instant::now() + WAIT_BUDGET.with(|b| b.get());
     loop {
         if let Poll::Ready(d) = fut.as_mut().poll(&mut cx) {
-            return d.as_ref().map(|c| c.v);
+            return Ok(d.as_ref().map(|c| c.v));
         }
         if Instant::now() > deadline {
-            eprintln!("TOOL-ERROR wait_for_data did not complete within 10 s");
-            std::process::exit(2);
+            return Err(());
         }
         std::thread::sleep(Duration::from_micros(20));
     }
@@ -123,8 +128,29 @@ trait KaEntry: CloseEntry + Send + Sync + Sized + 'static {
     fn bump(&mut self);
     fn bump_shared(&self);
     fn open(&mut self, s: usize, mode: OnParentDrop) -> Option<SlotGuard<Sub>>;
-    /// None: not supported in this state (LazySlot not opened)
-    fn wait(&mut self, s: usize) -> Option<Option<u64>>;
+    /// None: this slot is a LazySlot (no wait_for_data); Some(Err) = the data did not arrive in time
+    fn wait(&mut self, s: usize) -> Option<Result<Option<u64>, ()>>;
+    /// the `Slot` field (the other one is a `LazySlot`, which has no wait_for_data)
+    fn slot(&mut self, s: usize) -> Option<&mut Slot<Sub>>;
+    /// start waiting for the slot's data and give up (drop the pending future); Some(true) = was pending
+    fn wait_cancel(&mut self, s: usize) -> Option<bool> {
+        let slot = self.slot(s)?;
+        let mut fut = std::pin::pin!(slot.wait_for_data());
+        let waker = futures::task::noop_waker();
+        let mut cx = Context::from_waker(&waker);
+        Some(fut.as_mut().poll(&mut cx).is_pending())
+    }
+    /// take the data that wait_for_data handed back out of the slot; Some(true) = there was data
+    fn take_waited(&mut self, s: usize) -> Option<bool> {
+        let slot = self.slot(s)?;
+        let mut fut = std::pin::pin!(slot.wait_for_data());
+        let waker = futures::task::noop_waker();
+        let mut cx = Context::from_waker(&waker);
+        match fut.as_mut().poll(&mut cx) {
+            Poll::Ready(d) => Some(d.take().is_some()),
+            Poll::Pending => Some(false),
+        }
+    }
 }
 
 impl KaEntry for EntryA {
@@ -146,8 +172,11 @@ impl KaEntry for EntryA {
     fn open(&mut self, s: usize, mode: OnParentDrop) -> Option<SlotGuard<Sub>> {
         if s == 1 { self.s1.open(mode) } else { self.s2.open(Sub { idx: 2, v: 0 }, mode) }
     }
-    fn wait(&mut self, s: usize) -> Option<Option<u64>> {
+    fn wait(&mut self, s: usize) -> Option<Result<Option<u64>, ()>> {
         if s == 1 { Some(wait_slot(&mut self.s1)) } else { None }
+    }
+    fn slot(&mut self, s: usize) -> Option<&mut Slot<Sub>> {
+        if s == 1 { Some(&mut self.s1) } else { None }
     }
 }
 
@@ -170,8 +199,11 @@ impl KaEntry for EntryB {
     fn open(&mut self, s: usize, mode: OnParentDrop) -> Option<SlotGuard<Sub>> {
         if s == 1 { self.s1.open(Sub { idx: 1, v: 0 }, mode) } else { self.s2.open(mode) }
     }
-    fn wait(&mut self, s: usize) -> Option<Option<u64>> {
+    fn wait(&mut self, s: usize) -> Option<Result<Option<u64>, ()>> {
         if s == 2 { Some(wait_slot(&mut self.s2)) } else { None }
+    }
+    fn slot(&mut self, s: usize) -> Option<&mut Slot<Sub>> {
+        if s == 2 { Some(&mut self.s2) } else { None }
     }
 }
 
@@ -383,11 +415,15 @@ where
             false
         }
     }
-    fn wait(&mut self, s: usize) -> Option<Option<u64>> {
+    /// Some(-2) = timed out, Some(-1) = the guard went away without a value, Some(v) = value
+    fn wait(&mut self, s: usize) -> Option<i64> {
         let o = self.owner()?;
-        let r = o.wait(s)?;
-        trace::ev(json!({"ev":"Waited","i":s,"v": r.map(|v| v as i64).unwrap_or(-1)}));
-        Some(r)
+        let v = match o.wait(s)? {
+            Ok(r) => r.map(|v| v as i64).unwrap_or(-1),
+            Err(()) => -2,
+        };
+        trace::ev(json!({"ev": if v == -2 { "WaitTimeout" } else { "Waited" }, "i": s, "v": v}));
+        Some(v)
     }
     fn take(&mut self, k: &str, i: usize) -> Option<Obj<E>> {
         self.objs.remove(&key(k, i))
@@ -418,22 +454,24 @@ where
         ks.sort();
         for k in ks {
             if let Some(o) = self.objs.remove(&k) {
-                timed_drop(&k.0, k.1, o);
+                let _ = timed_drop(&k.0, k.1, o);
             }
         }
     }
 }
 
-fn timed_drop<E: KaEntry>(k: &str, i: usize, o: Obj<E>)
+/// Drop one object, logging DropStart / DropEnd; a panic of the code under test is data (returned).
+fn timed_drop<E: KaEntry>(k: &str, i: usize, o: Obj<E>) -> Option<String>
 where
     SnapSink: EntrySink<RootMetric<E>>,
 {
     trace::ev(json!({"ev":"DropStart","k":k,"i":i}));
     let r = util::catch(move || drop(o));
-    if let Err(m) = r {
+    if let Err(m) = &r {
         trace::ev(json!({"ev":"Panic","k":k,"i":i,"msg":m}));
     }
     trace::ev(json!({"ev":"DropEnd","k":k,"i":i}));
+    r.err()
 }
 
 fn modes_of(v: &Value) -> Vec<String> {
@@ -487,8 +525,8 @@ where
                     r.is_some()
                 }
                 "WaitForData" => match w.wait(i) {
-                    Some(r) => {
-                        res = json!(r.map(|v| v as i64).unwrap_or(-1));
+                    Some(v) => {
+                        res = json!(v);
                         true
                     }
                     // LazySlot has no wait_for_data: the value stays in the channel, which the
@@ -499,9 +537,25 @@ where
                     }
                 },
                 "MutSlot" => w.mut_slot(i),
+                "WaitCancel" => {
+                    res = match w.owner().and_then(|o| o.wait_cancel(i)) {
+                        Some(p) => json!(if p { "pending" } else { "ready" }),
+                        None => json!("n/a"),
+                    };
+                    true
+                }
+                "TakeWaited" => {
+                    res = match w.owner().and_then(|o| o.take_waited(i)) {
+                        Some(t) => json!(if t { "taken" } else { "nothing" }),
+                        None => json!("n/a"),
+                    };
+                    true
+                }
                 "Drop" => match w.take(k, i) {
                     Some(o) => {
-                        timed_drop(k, i, o);
+                        if let Some(m) = timed_drop(k, i, o) {
+                            res = json!({"panic": m});
+                        }
                         true
                     }
                     None => false,
@@ -520,6 +574,7 @@ where
 
 fn cmd_seq(a: &HashMap<String, String>) {
     sched::controller().free_run();
+    WAIT_BUDGET.with(|b| b.set(Duration::from_millis(300)));
     let beh = util::read_ndjson(util::arg_str(a, "behaviours", ""));
     let mut out = std::io::BufWriter::new(std::fs::File::create(util::arg_str(a, "out", "")).unwrap());
     std::panic::set_hook(Box::new(|_| {}));
@@ -617,6 +672,7 @@ where
     SnapSink: EntrySink<RootMetric<E>>,
 {
     snaps_clear();
+    WAIT_BUDGET.with(|b| b.set(Duration::from_millis(300)));
     let ctrl = sched::controller();
     let mut actors: Vec<u32> = vec![1];
     for base in [10u32, 20, 30, 40] {
@@ -675,7 +731,7 @@ where
                         threads.push(std::thread::spawn(move || {
                             let _g = sched::ActorGuard::new(a);
                             TAG.with(|t| t.set(tag));
-                            timed_drop(&kk, i, o);
+                            let _ = timed_drop(&kk, i, o);
                         }));
                         let mut arr = st.arrive(a);
                         if action == "SSenddiscard" && matches!(arr, Arrival::At("ka.sg_sent", _)) {
@@ -756,7 +812,7 @@ where
         let r = util::catch(std::panic::AssertUnwindSafe(|| match name {
             "drop" => {
                 if let Some(o) = w.take(k, i) {
-                    timed_drop(k, i, o);
+                    let _ = timed_drop(k, i, o);
                 }
             }
             "mut" => {
